@@ -2,7 +2,9 @@ import Lean.Data.Json
 import QModel.Arith
 import QModel.Bytes
 import QModel.Recipe
-open Lean Num Nd Arith Cfg
+import QModel.Perform
+import QModel.WF
+open Lean Num Nd Arith Cfg Graph
 
 /-! JSON-lines driver: one request per line on stdin, one response per line on stdout. -/
 
@@ -180,6 +182,114 @@ def recipeStep (rx : String → String → Bool) (reqW : Bool) (st : Recipe.Stat
   | _ => throw s!"bad recipe cmd {k}"
 
 
+
+def getIntL (j : Json) (k : String) : Except String (List Int) := do
+  let a ← j.getObjValAs? (Array Int) k
+  pure a.toList
+
+def getXf (s : String) : Except String Xf :=
+  match s with
+  | "NO_QUANTIZE" => pure .noQuant | "ADD_QUANTIZE" => pure .addQuant | "ADD_DEQUANTIZE" => pure .addDequant
+  | "QUANTIZE_TENSOR" => pure .quantTensor | "EMULATED_SUBCHANNEL" => pure .emulated
+  | _ => throw s!"bad xf {s}"
+
+def xfStr : Xf → String
+  | .noQuant => "NO_QUANTIZE" | .addQuant => "ADD_QUANTIZE" | .addDequant => "ADD_DEQUANTIZE"
+  | .quantTensor => "QUANTIZE_TENSOR" | .emulated => "EMULATED_SUBCHANNEL"
+
+def getOptNat (j : Json) (k : String) : Option Nat := (j.getObjValAs? Nat k).toOption
+
+def getModel (j : Json) : Except String Model := do
+  let sgs ← j.getObjValAs? (Array Json) "subgraphs"
+  let subgraphs ← sgs.toList.mapM fun sg => do
+    let ts ← sg.getObjValAs? (Array Json) "tensors"
+    let tensors ← ts.toList.mapM fun t => do
+      let name ← t.getObjValAs? String "name"
+      let dtype ← t.getObjValAs? Nat "dtype"
+      let shape ← getIntL t "shape"
+      let buffer ← t.getObjValAs? Nat "buffer"
+      pure ({ name := name, dtype := dtype, shape := shape, buffer := buffer, quant := getOptNat t "quant" } : Tensor)
+    let os ← sg.getObjValAs? (Array Json) "ops"
+    let ops ← os.toList.zipIdx.mapM fun (o, i) => do
+      let code ← o.getObjValAs? Nat "code"
+      let ins ← getIntL o "in"
+      let outs ← getIntL o "out"
+      pure ({ code := code, inputs := ins, outputs := outs, orig := some i } : Op)
+    let inputs ← getIntL sg "inputs"
+    let outputs ← getIntL sg "outputs"
+    pure ({ tensors := tensors, ops := ops, inputs := inputs, outputs := outputs } : Subgraph)
+  let bs ← j.getObjValAs? (Array Json) "buffers"
+  let buffers : List BufContent := bs.toList.map fun b => match b.getNat? with
+    | .ok k => some (.inl k)
+    | .error _ => none
+  let opcodes ← j.getObjValAs? (Array Nat) "opcodes"
+  let ss ← j.getObjValAs? (Array Json) "sigs"
+  let sigs ← ss.toList.mapM fun sd => do
+    let key ← sd.getObjValAs? String "key"
+    let sgi ← sd.getObjValAs? Nat "sg"
+    let pairs := fun (k : String) => do
+      let a ← sd.getObjValAs? (Array Json) k
+      a.toList.mapM fun e => match e with
+        | .arr #[.str n, v] => (match v.getInt? with | .ok z => pure (n, z) | .error e => throw e)
+        | _ => throw "bad sig entry"
+    let ins ← pairs "inputs"
+    let outs ← pairs "outputs"
+    pure ({ key := key, sg := sgi, inputs := ins, outputs := outs } : Sig)
+  pure { subgraphs := subgraphs, buffers := buffers, opcodes := opcodes.toList, sigs := sigs }
+
+def modelToJson (m : Model) : Json :=
+  Json.mkObj [
+    ("subgraphs", Json.arr (m.subgraphs.map fun sg => Json.mkObj [
+      ("tensors", Json.arr (sg.tensors.map fun t => Json.mkObj [
+        ("name", Json.str t.name), ("dtype", toJson t.dtype), ("shape", toJson t.shape), ("buffer", toJson t.buffer),
+        ("quant", match t.quant with | some p => toJson p | none => Json.null)]).toArray),
+      ("ops", Json.arr (sg.ops.map fun o => Json.mkObj [
+        ("code", toJson o.code), ("in", toJson o.inputs), ("out", toJson o.outputs),
+        ("orig", match o.orig with | some i => toJson i | none => Json.null)]).toArray),
+      ("inputs", toJson sg.inputs), ("outputs", toJson sg.outputs)]).toArray),
+    ("buffers", Json.arr (m.buffers.map fun b => match b with
+      | none => Json.null
+      | some (.inl k) => Json.mkObj [("k", toJson k)]
+      | some (.inr p) => Json.mkObj [("p", toJson p)]).toArray),
+    ("opcodes", toJson m.opcodes),
+    ("sigs", Json.arr (m.sigs.map fun s => Json.mkObj [
+      ("key", Json.str s.key), ("sg", toJson s.sg),
+      ("inputs", Json.arr (s.inputs.map fun e => Json.arr #[Json.str e.1, toJson e.2]).toArray),
+      ("outputs", Json.arr (s.outputs.map fun e => Json.arr #[Json.str e.1, toJson e.2]).toArray)]).toArray)]
+
+def getO2T (j : Json) : Except String O2T := do
+  let opId ← j.getObjValAs? Int "op"
+  let xs ← j.getObjValAs? (Array String) "xfs"
+  let xfs ← xs.toList.mapM getXf
+  pure { opId := opId, xfs := xfs, param := getOptNat j "param" }
+
+def getReqs (j : Json) : Except String (List TReq) := do
+  let rs ← j.getObjValAs? (Array Json) "reqs"
+  rs.toList.mapM fun r => do
+    let name ← r.getObjValAs? String "name"
+    let pj ← r.getObjVal? "producer"
+    let producer ← if pj.isNull then pure none else (getO2T pj).map some
+    let cj ← r.getObjVal? "consumers"
+    let consumers ← if cj.isNull then pure none else do
+      let a ← r.getObjValAs? (Array Json) "consumers"
+      let l ← a.toList.mapM getO2T
+      pure (some l)
+    pure { name := name, producer := producer, consumers := consumers }
+
+def getPTable (j : Json) : Except String PTable := do
+  let ps ← j.getObjValAs? (Array Json) "ptable"
+  ps.toList.mapM fun p => do
+    let id ← p.getObjValAs? Nat "id"
+    let u ← p.getObjValAs? Bool "uniform"
+    let b ← p.getObjValAs? Nat "bits"
+    let d ← p.getObjValAs? Bool "hasData"
+    pure (id, { uniform := u, bits := b, hasData := d })
+
+def instToJson (i : Inst) : Json :=
+  Json.mkObj [("xf", Json.str (xfStr i.xf)), ("tensor", toJson i.tensor), ("producer", toJson i.producer),
+              ("consumers", toJson i.consumers), ("param", match i.param with | some p => toJson p | none => Json.null)]
+
+
 def okJson (j : Json) : Json := Json.mkObj [("ok", j)]
 def errJson (e : PyErr) : Json := Json.mkObj [("err", Json.str (toString e))]
 def pyToJson {α} (f : α → Json) : PyM α → Json
@@ -269,6 +379,18 @@ def handle (j : Json) : Except String Json := do
         st := st'
         outs := outs.push o
       pure (okJson (Json.arr outs))
+  | "graph_insts" =>
+      let m ← getModel (← j.getObjVal? "model")
+      let reqs ← getReqs j
+      pure (pyToJson (fun (l : List TInsts) => Json.arr (l.map fun ti => Json.mkObj [("name", Json.str ti.name), ("sg", toJson ti.sg),
+          ("insts", Json.arr (ti.insts.map instToJson).toArray)]).toArray) (InstGen.genInsts m reqs))
+  | "graph_modify" =>
+      let m ← getModel (← j.getObjVal? "model")
+      let reqs ← getReqs j
+      let pt ← getPTable j
+      pure (match Perform.modify pt m reqs with
+        | .ok m' => Json.mkObj [("ok", modelToJson m'), ("wf", Json.bool (WF.modelOK m')), ("wf_in", Json.bool (WF.modelOK m))]
+        | .error e => errJson e)
   | _ => throw s!"unknown op {op}"
 
 end Drv
